@@ -787,25 +787,7 @@ func runOp(c *ctx, u uhppote.IUHPPOTE, d *fake.Driver, g cfgGen, op opDef, dev u
 	// otherwise nearly every reply of these operations ends in the "wrong echo" error branch and the
 	// mapping of the remaining fields is never reached
 	if len(argToks) > 0 && r.Chance(3, 4) {
-		var n uint64
-		switch op.name {
-		case "GetTimeProfile":
-			if _, err := fmt.Sscanf(argToks[0], "u8:%d", &n); err == nil && n != 0 {
-				for _, a := range arrivals {
-					if len(a) == 64 && a[1] == 0x98 {
-						a[8] = byte(n)
-					}
-				}
-			}
-		case "GetCardByID":
-			if _, err := fmt.Sscanf(argToks[0], "u32:%d", &n); err == nil && n != 0 {
-				for _, a := range arrivals {
-					if len(a) == 64 && a[1] == 0x5a {
-						a[8], a[9], a[10], a[11] = byte(n), byte(n>>8), byte(n>>16), byte(n>>24)
-					}
-				}
-			}
-		}
+		echoAdjust(op.name, argToks, arrivals)
 	}
 	d.Calls = nil
 	d.Datagrams = arrivals
@@ -871,5 +853,11 @@ func streamOps(c *ctx) {
 			runOp(c, u, d, g, op, dev, r.Chance(1, 6), arr, "phase/history", "arrivals/"+cls)
 		}
 	}
+	// (5) six clients on six goroutines at the same time
+	parallelPhase(c, N/200)
+	c.w.Notes = append(c.w.Notes, "ops stream, phase parallel: 6 goroutines x 40 calls, each goroutine with its own client, configuration and in-memory driver, two thirds of the calls carrying dates (PutCard, SetTimeProfile, AddTask, SetTime); every call judged by itself as in the sequential phases")
+	// (4) the real driver on loopback sockets: the request as the controller stand-in read it from the wire
+	wirePhase(c, N/8)
+	c.w.Notes = append(c.w.Notes, "ops stream, phase wire: the same operations through the REAL ut0311 driver (broadcast-to / UDP / TCP x debug flag on / off, every operation at least once in each combination) to a stand-in on 127.0.0.1; the request bytes compared with the model are the ones the stand-in read from its socket")
 	c.w.Notes = append(c.w.Notes, "ops stream: the 31 sendto-based operations through the hooked in-memory driver; phase args: type-directed arguments with boundary values (serials with top byte set, card numbers around the Wiegand-26 limits, PIN 999999/1000000, doors 0..255, nil/partial/extra-key maps, IPv4 / 4-in-6 / nil / IPv6 addresses, dates incl. zero, HH:mm incl. 24:00, SetTime in several Locations), configurations {unconfigured, no address, 0.0.0.0, port 0, valid} x {udp,tcp,any,TCP,''} x broadcast set/unset; phase replies: single mutated fields and datagram sequences over the classes valid/short/long/wrong-serial/serial-0/wrong-code/wrong-som/som-19/malformed; phase history: 2..13 calls on one client instance compared call by call with the stateless model")
 }
